@@ -624,6 +624,10 @@ def known_hang(script):
 _LOOPWORD = re.compile(r"\b(while|until|for|select)\b")
 
 
+def deloop(script):
+    return re.sub(r"\bdo\b", "do break;", script)
+
+
 def bash_terminates(script, timeout=5):
     """False when bash does not finish either, or when the comparison is inconclusive: the script contains a loop and bash
     stops early with an error (a mutant that bash rejects as a syntax error may legitimately loop forever in brush,
@@ -763,6 +767,16 @@ def explore(ctx, rng, scale):
             if r[0] == "T" and not kid and not bash_terminates(s):
                 st["nonterminating_in_bash_too_or_inconclusive"] += 1
                 continue
+            if r[0] == "T" and not kid and _LOOPWORD.search(s):
+                # a script-level loop that never ends because brush evaluates its condition differently from bash is a
+                # semantic deviation (other properties), not a hang of the shell: the same script with every loop body
+                # cut short by `break` must still hang to count here
+                s2 = deloop(s)
+                r2 = parse_sh(run_cases(ctx, [["sh", s2, o]], timeout_ms=8000, shards=1)[0])
+                if r2[0] != "T":
+                    st["loop_divergence"] = st.get("loop_divergence", 0) + 1
+                    st.setdefault("loop_divergence_samples", []).append(s[:300])
+                    continue
             if r[0] == "C" and not kid:
                 # the process died (abort / OOM / exit): confirm through the CLI binary
                 rr = run_vbrush(ctx, [s], timeout=20)[0]
@@ -799,6 +813,9 @@ def explore(ctx, rng, scale):
             kid = known_hang(s)
             if not kid and not bash_terminates(s):
                 st["nonterminating_in_bash_too_or_inconclusive"] += 1
+                continue
+            if not kid and _LOOPWORD.search(s) and run_vbrush(ctx, [deloop(s)], timeout=10)[0][0] != "T":
+                st["loop_divergence"] = st.get("loop_divergence", 0) + 1
                 continue
             v = {"input": {"script": s[:4000], "via": "vbrush -c"}, "why": "no exit within 10 s although bash finishes"}
             if kid:
